@@ -24,6 +24,7 @@ type Env struct {
 	params    map[string]bool // names that are parameters (not results / lets)
 	prevVals  map[*ssa.Phi]Val // step clauses: header values of the loop's phis
 	prevState *State
+	stepFrom  *ssa.BasicBlock   // step clauses: the source block of the back edge
 	strong    map[string]string // strong(name): "self" and function-typed parameters
 }
 
@@ -99,6 +100,23 @@ func (fx *fnExec) eval(e *Expr, env *Env) TV {
 		if v, ok := env.vars[e.Name]; ok {
 			return v
 		}
+		if e.Name == "rangepos" && env.fr != nil {
+			// byte offset of the next element of the function's range-over-string loop
+			var it *RangeV
+			for _, v := range env.fr.vals {
+				if rv, ok := v.(RangeV); ok {
+					if it != nil && it.Cell != rv.Cell {
+						panic(contractErr("rangepos: more than one range-over-string in " + fx.fn.String()))
+					}
+					r2 := rv
+					it = &r2
+				}
+			}
+			if it == nil {
+				panic(contractErr("rangepos: no range-over-string in " + fx.fn.String()))
+			}
+			return TV{Sc{sel(fx.heapLeaf(env.cur, rangeLeaf, SInt), it.Cell), SInt}, tInt}
+		}
 		if env.fr != nil {
 			if al, ok := env.fr.cells[e.Name]; ok {
 				if pv, ok := env.fr.vals[al].(PtrV); ok {
@@ -107,6 +125,12 @@ func (fx *fnExec) eval(e *Expr, env *Env) TV {
 			}
 			if v, ok := env.fr.resolveName(e.Name, env.at, env.atEnd); ok {
 				return v
+			}
+			if env.stepFrom != nil {
+				// step clauses: a name defined in the loop body denotes its value in the iteration just done
+				if v, ok := env.fr.resolveName(e.Name, env.stepFrom, true); ok {
+					return v
+				}
 			}
 		}
 		// package-level constant or variable (variables are read-only after init: one constant per leaf)
@@ -517,14 +541,8 @@ func (fx *fnExec) evalCall(e *Expr, env *Env) TV {
 			panic(contractErr("as() of a non-reference"))
 		}
 		tn := strings.TrimPrefix(e.Args[1].Str, "*")
-		for _, sp := range g.spkgs {
-			parts := strings.SplitN(tn, ".", 2)
-			if len(parts) == 2 && sp.Pkg.Name() == parts[0] {
-				if obj := sp.Pkg.Scope().Lookup(parts[1]); obj != nil {
-					pt := types.NewPointer(obj.Type())
-					return TV{PtrV{Addr: ref, HT: g.heapTypeName(obj.Type()), Elem: obj.Type()}, pt}
-				}
-			}
+		if t := g.namedTypeByName(tn); t != nil {
+			return TV{PtrV{Addr: ref, HT: g.heapTypeName(t), Elem: t}, types.NewPointer(t)}
 		}
 		panic(contractErr("unknown type " + e.Args[1].Str))
 	case "freshRef": // references: nil or allocated during the call; other values: true
@@ -733,6 +751,28 @@ func (fx *fnExec) evalCall(e *Expr, env *Env) TV {
 	case "max":
 		a, b := fx.evalInt(e.Args[0], env), fx.evalInt(e.Args[1], env)
 		return TV{Sc{ite(app(">=", a, b), a, b), SInt}, tInt}
+	case "utf8len":
+		ln, _ := fx.utf8Funs()
+		return TV{Sc{app(ln, fx.evalInt(e.Args[0], env)), SInt}, tInt}
+	case "utf8byte":
+		_, by := fx.utf8Funs()
+		return TV{Sc{app(by, fx.evalInt(e.Args[0], env), fx.evalInt(e.Args[1], env)), SInt}, tInt}
+	case "boxedInt": // the integer held by an interface value (boxed at a MakeInterface)
+		v := fx.eval(e.Args[0], env).V.(IfV)
+		return TV{Sc{app(fx.s.declFun("boxval", []Sort{SInt}, SInt), v.Ref), SInt}, tInt}
+	case "isKeywordFold": // the ASCII upper-casing of s is a member of token.Keywords (ground: one disjunct per keyword)
+		sv := fx.eval(e.Args[0], env).V.(StrV)
+		var alts []string
+		for _, kw := range fx.g.keywordSet {
+			cs := []string{eq(sv.Len, num(int64(len(kw))))}
+			for k := 0; k < len(kw); k++ {
+				c := sel(sv.Arr, add(sv.Off, num(int64(k))))
+				up := ite(and(app("<=", "97", c), app("<=", c, "122")), sub(c, "32"), c)
+				cs = append(cs, eq(up, num(int64(kw[k]))))
+			}
+			alts = append(alts, and(cs...))
+		}
+		return TV{Sc{fx.s.define("iskwfold", SBool, or(alts...)), SBool}, tBool}
 	case "isKeywordStr":
 		s := fx.eval(e.Args[0], env).V.(StrV)
 		return TV{Sc{fx.keywordMember(s), SBool}, tBool}
